@@ -1,4 +1,5 @@
 import CpModel.Enum
+import CpModel.Gen.Vectors
 import CpProofs.Enum
 import CpSpec.Codes
 /-
@@ -122,6 +123,19 @@ theorem canonical_codes_nodup : Gen.numTables.all (fun t => decide t.codes.Nodup
   decide +kernel
 
 theorem codes_fit_width : Gen.numTables.all fitsWidth = true := by
+  decide +kernel
+
+/-- Inside a list container an unknown code is preserved by a fallback class: that class must read
+code points of exactly the width of the item factory, otherwise an unknown code swallows (or splits)
+its neighbour. Decided on the parameters regenerated from every live container class. -/
+def fallbackWidthOk (v : Gen.VecP) : Bool :=
+  v.itemCodeSize == 0 || v.fallbackCodeSize == 0 || v.itemCodeSize == v.fallbackCodeSize
+
+theorem container_fallback_width_matches_item_width : Gen.vecParams.all fallbackWidthOk = true := by
+  decide +kernel
+
+/-- non-vacuity: several live containers do have both widths -/
+example : (Gen.vecParams.filter fun v => v.itemCodeSize != 0 && v.fallbackCodeSize != 0).length ≥ 8 := by
   decide +kernel
 
 /-- The GREASE tables are exactly the RFC 8701 patterns. -/
